@@ -382,6 +382,16 @@ R08_REVIEWED = {
         "needs dividend i64::MIN, but both operands are Ratio<i32>::to_i64() (|x| <= 2^31)",
     "R08a|floor|Rational|Ratio<i64>::floor":
         "numerator and denominator are i32 values widened to i64 (new_raw of `as i64` casts); floor's numer - denom + 1 stays below 2^33",
+    "R08a|round|Rational|Ratio<i64>::floor":
+        "numerator and denominator are i32 values widened to i64 (number::widen); floor's numer - denom + 1 stays below 2^33",
+    "R08a|round|Rational|Ratio<i64>::sub":
+        "x - floor(x) for x with 32-bit parts: floor(x) is an integer of magnitude <= 2^31, the cross products stay below 2^62",
+    "R08a|round|Rational|Ratio<i64>::mul":
+        "a fraction in [0, 1) whose denominator is below 2^31, times the integer 2",
+    "R08a|round|Rational|Overflow(Add):i64":
+        "floor + 1 where floor is the integer part of a rational with 32-bit parts: |floor| <= 2^31",
+    "R08a|round|Rational|Overflow(Rem):i64":
+        "floor % 2: the assert guards i64::MIN % -1, and the divisor is the constant 2",
     "R08a|ceil|Rational|Ratio<i64>::ceil":
         "numerator and denominator are i32 values widened to i64 (new_raw of `as i64` casts); ceil's numer + denom - 1 stays below 2^33",
 }
@@ -1430,7 +1440,9 @@ def r08j(ctx, rep, rule="R08j"):
                 rule, key, "%s reaches checked_div only with a non-zero dividend or a zero divisor (%d path(s))" % (f.short, len(paths)) if bad is None else
                 "%s can call Ratio<i32>::checked_div with a zero dividend and a non-zero divisor: gcd(0, i32::MIN) overflows inside it, "
                 "so (/ 0 -2147483648/3) panics instead of returning 0" % f.short, [t["loc"]])
-    rep.floor(rule, "calls of Ratio<i32>::checked_div in the library", n, 1)
+    if n == 0:
+        rep.ok(rule, rule + "|none", "the library does not call Ratio<i32>::checked_div at all (rational division is carried out in 64 bits)",
+               nontrivial=False)
 
 
 def r08k(ctx, rep, rule="R08k"):
@@ -1728,3 +1740,48 @@ def r16r(ctx, rep, rule="R16r"):
         rule, key, "parse_number compares the start of the token after a prefix with the end of the prefix" if hits else
         "parse_number takes whatever token follows a number prefix, however far away: whitespace and comments may stand between "
         "#x and its digits in program text, which string->number does not accept", hits or [f.span])
+
+
+def r08q(ctx, rep, rule="R08q"):
+    """an exact result that fits is not given up on"""
+    facts = ctx["facts"]
+    rep.rule(rule, "inexact only when the result is not representable: Ratio<i32>'s checked_add / checked_sub / checked_div give up as "
+             "soon as an intermediate product leaves 32 bits, also where the reduced result fits — (+ 2147483647/2 2147483647/2) "
+             "is 2147483647, (- 50000 2147483647/50000) is 352516353/50000 — and the operators then fall back to a float. In the "
+             "arms of +, - and / that have a rational operand the exact attempt is therefore not made with those 32-bit "
+             "operations (it is formed in 64 bits, where the cross products of 32-bit parts cannot overflow, and narrowed).")
+    n = 0
+    for name in ("add", "sub", "div"):
+        fn = need(rep, rule, facts, BINOPS[name])
+        if fn is None:
+            continue
+        for (x, y), reg in sorted(number_arms(facts, fn).items(), key=lambda kv: kv[0]):
+            if "Rational" not in (x, y) or "Float" in (x, y) or not isinstance(reg, set):
+                continue
+            n += 1
+            bad = []
+            for c, fa, loc, bb, t in region_facts(fn, reg)["calls"]:
+                if re.search(r"Ratio<i32> as num::Checked(Add|Sub|Div)>::checked_(add|sub|div)$", fa or ""):
+                    bad.append(loc)
+            key = "%s|%s|%s,%s" % (rule, name, x, y)
+            (rep.ok if not bad else rep.fail)(
+                rule, key, "%s(%s, %s) makes its exact attempt in a width that cannot fail for a representable result" % (name, x, y) if not bad else
+                "%s(%s, %s) makes its exact attempt with a 32-bit checked operation of Ratio<i32>, which fails on an intermediate "
+                "product even where the reduced result fits: a representable exact result comes back as a float" % (name, x, y), bad)
+    rep.floor(rule, "exact arms of + - / with a rational operand", n, 12)
+
+
+def r08r(ctx, rep, rule="R08r"):
+    """round goes to the even neighbour on a tie"""
+    facts = ctx["facts"]
+    rep.rule(rule, "round is round-to-even (R7RS 6.2.6): Ratio::round and f64::round take a tie away from zero — (round 5/2) was 3, "
+             "(round 1/2) was 1, a wrong exact value. Number::round calls neither.")
+    fn = need(rep, rule, facts, "marwood::number::Number::round")
+    if fn is None:
+        return
+    bad = [t["loc"] for bb, t in fn.calls() if re.search(r"(Ratio::<T>::round|f64>?::round)$", callee(t) or "") or
+           re.search(r"(Ratio<i(32|64)>::round|<impl f64>::round)$", t.get("fnargs") or "")]
+    key = rule + "|round|ties-to-even"
+    (rep.ok if not bad else rep.fail)(
+        rule, key, "Number::round uses neither Ratio::round nor f64::round" if not bad else
+        "Number::round rounds with Ratio::round / f64::round, which take a tie away from zero: (round 5/2) is 3 instead of 2", bad)
